@@ -70,6 +70,8 @@ func genCliGeneral(v6 bool) *rapid.Generator[cliScenario] {
 			serial++
 			d.Kind = rapid.SampledFrom([]int{dgGood, dgGood, dgGood, dgGood, dgWrongXid, dgWrongHW, dgWrongOp, dgRelayType, dgGarbage, dgEmpty}).Draw(t, "kind")
 			d.Op = rapid.SampledFrom([]uint8{1, 3, 0, 255, 2}).Draw(t, "op")
+			d.HType = rapid.SampledFrom([]uint8{0, 0, 0, 1, 6, 32, 255}).Draw(t, "htype")
+			d.PadTo = rapid.SampledFrom([]int{0, 0, 0, 0, 576, 1499, 1500}).Draw(t, "padto")
 			burst := 1
 			if rapid.IntRange(0, 4).Draw(t, "burst") == 0 {
 				burst = rapid.IntRange(2, 8).Draw(t, "nburst")
@@ -89,6 +91,7 @@ func genCliGeneral(v6 bool) *rapid.Generator[cliScenario] {
 			sc.CloseAt = evTick(rapid.IntRange(0, horizon).Draw(t, "closeat"))
 			sc.DoubleClose = rapid.Bool().Draw(t, "double")
 		}
+		sc.LogDropped = rapid.IntRange(0, 3).Draw(t, "logdropped") == 0
 		return sc
 	})
 }
@@ -254,7 +257,7 @@ func TestC11_Rapid(t *testing.T) {
 // ---- C12 -----------------------------------------------------------------------------
 
 var c12 = cliCheck("C12", "schedule",
-	"one call per scenario under virtual time over the grid T ∈ {1 ms, 10 ms, 250 ms, 1 s, 5 s} × tries ∈ {−1..6} × request shapes (with and without elapsed-time / large options) × (no response | an accepted response in try k at 1 tick after the send, mid-try, or 1 tick before the deadline); the write log must hold exactly the predicted transmissions: count, instants 0, T, 3T, 7T, …, bytes equal to the request's encoding taken before the call, the requested destination, nothing after the call returned, and the no-response error at T×(2^n−1); unlimited tries are observed for 6 tries before cancellation; non-trivial = every case; distinct by scenario hash",
+	"one call per scenario under virtual time over the grid T ∈ {1 ms, 10 ms, 250 ms, 1 s, 5 s} × tries ∈ {−1..6} × request shapes (with and without elapsed-time / large options) × (no response | an accepted response in try k at 1 tick after the send, mid-try, or 1 tick before the deadline); the write log must hold exactly the predicted transmissions: count, instants 0, T, 3T, 7T, …, bytes equal to the request's encoding taken before the call, the requested destination, nothing after the call returned, and the no-response error at T×(2^n−1); unlimited tries are observed for 11 tries (2047 T) before cancellation; non-trivial = every case; distinct by scenario hash",
 	aspWrites|aspTiming)
 
 func c12Scenario(v6 bool, tickNs int64, tries, variant, respTry, respPos int) cliScenario {
